@@ -15,8 +15,10 @@ import (
 	"encoding/json"
 	"fmt"
 	"io"
+	"math/rand"
 	"os"
 	"path/filepath"
+	"regexp"
 	"strconv"
 	"testing"
 
@@ -262,5 +264,97 @@ func TestBoundedC12Create(t *testing.T) {
 		}
 		_ = seed
 	}
-	fmt.Printf("BOUNDED evaluations=%d clusters=%d combines=%d domain=create-cluster_shapes_%d(n_3..10),threshold-sized_node_subsets seed=%d\n", checks, clusters, combines, len(cfgs), seed)
+	// create cluster --definition-file: (a) solo definitions (no operator addresses, what the repository's tests use) and
+	// (b) valid, signed definitions whose operators carry addresses, for format versions with EIP-712 signatures
+	var failures []string
+	defVersions := []string{"v1.10.0"} // the fixture builder sets a target gas limit: v1.10 or later
+	if thorough {
+		defVersions = []string{"v1.10.0", "v1.11.0"}
+	}
+	for vi, version := range defVersions {
+		for _, signed := range []bool{false, true} {
+			rnd := rand.New(rand.NewSource(int64(seed + vi + 1)))
+			opts := []func(*cluster.Definition){cluster.WithVersion(version), cluster.WithLegacyVAddrs(testutil.RandomChecksummedETHAddress(t, vi+1), testutil.RandomChecksummedETHAddress(t, vi+2))}
+			lock0, _, _ := cluster.NewForT(t, 2, 3, 4, seed+vi+1, rnd, opts...)
+			def := lock0.Definition
+			kind := "signed-operators"
+			if !signed {
+				kind = "solo"
+				for i := range def.Operators {
+					def.Operators[i] = cluster.Operator{}
+				}
+				def.Creator = cluster.Creator{}
+				var err error
+				if def, err = def.SetDefinitionHashes(); err != nil {
+					t.Fatal(err)
+				}
+			}
+			tag := fmt.Sprintf("definition-file %s %s", version, kind)
+			if err := def.VerifyHashes(); err != nil {
+				t.Fatalf("%s: fixture: %v", tag, err)
+			}
+			if err := def.VerifySignatures(nil); err != nil {
+				t.Fatalf("%s: fixture signatures: %v", tag, err)
+			}
+			b, err := json.Marshal(def)
+			if err != nil {
+				t.Fatal(err)
+			}
+			defPath := filepath.Join(t.TempDir(), "cluster-definition.json")
+			if err := os.WriteFile(defPath, b, 0o600); err != nil {
+				t.Fatal(err)
+			}
+			dir := t.TempDir()
+			if err := runCreateCluster(ctx, io.Discard, clusterConfig{DefFile: defPath, ClusterDir: dir, InsecureKeys: true, Network: "goerli"}); err != nil {
+				// refusing a definition is consistent; writing an inconsistent artifact is not
+				continue
+			}
+			clusters++
+			lb, err := os.ReadFile(filepath.Join(nodeDir(dir, 0), "cluster-lock.json"))
+			if err != nil {
+				t.Fatal(err)
+			}
+			var lock cluster.Lock
+			if err := json.Unmarshal(lb, &lock); err != nil {
+				failures = append(failures, fmt.Sprintf("%s: written lock does not decode: %v", tag, err))
+				continue
+			}
+			if err := lock.VerifyHashes(); err != nil {
+				failures = append(failures, fmt.Sprintf("%s: written lock fails VerifyHashes: %v", tag, err))
+			}
+			if err := lock.VerifySignatures(nil); err != nil {
+				failures = append(failures, fmt.Sprintf("%s: written lock fails VerifySignatures: %v", tag, err))
+			}
+			checks += 2
+		}
+	}
+	fmt.Printf("BOUNDED evaluations=%d clusters=%d combines=%d domain=create-cluster_shapes_%d(n_3..10),threshold-sized_node_subsets,definition-file_versions_%d(solo+signed-operators) seed=%d\n", checks, clusters, combines, len(cfgs), len(defVersions), seed)
+	// recorded known findings (never added at run time): failures of exactly these classes are reported as such
+	type kf struct{ Kind, Property, Obligation, What, Match string }
+	var known []kf
+	root := os.Getenv("VERIF_ROOT")
+	if root == "" {
+		root = "/verif"
+	}
+	if kb, err := os.ReadFile(root + "/known_findings.json"); err == nil {
+		_ = json.Unmarshal(kb, &known)
+	}
+	reported := map[string]bool{}
+	for _, f := range failures {
+		matched := false
+		for _, k := range known {
+			if k.Kind == "known" && k.Property == "C12" && k.Match != "" {
+				if ok, _ := regexp.MatchString(k.Match, f); ok {
+					matched = true
+					if !reported[k.Obligation] {
+						reported[k.Obligation] = true
+						fmt.Printf("KNOWN-FINDING: property=C12 %s [%s]\n", k.What, k.Obligation)
+					}
+				}
+			}
+		}
+		if !matched {
+			t.Errorf("%s", f)
+		}
+	}
 }
